@@ -470,7 +470,7 @@ def register3(reg):
                    SHARE(entry_pay_e(last), PREP(ctx.data.e, info_e)))
 
     reg.add(Contract(
-        f"{OUT}.push_data", self_cls="Output", props=["C08.2", "C01.4", "C10.1"], params={"data": Pay, "time": TimeOpt},
+        f"{OUT}.push_data", self_cls="Output", props=["C08.2", "C01.4", "C10.1", "C09.5"], params={"data": Pay, "time": TimeOpt},
         requires=pd_pre, ensures=pd_post, modifies=pd_mod,
         raises={"FinamNoDataError": not_exchanged, "FinamDataError": shares},
         must_raise={"FinamNoDataError": not_exchanged, "FinamDataError": shares_with_previous},
